@@ -21,6 +21,7 @@ RULE = ("stream 'history': random sequences (4..14 steps) of store API operation
         "reopens the file; per record the recovered value must be the previous or the new one, and the content must equal the model's "
         "crash(run(prefix j)). stream 'journal': the journal mode of the opened store's connection. stream 'otherkey': an operation on one key (second device, second sender, "
         "neighbouring id, other contact) never costs the record under another key. distinct = distinct (history, op, kill point).")
+RULE += (" stream 'stmtfault': the j-th write statement of an operation fails (storage fault), then another operation, close: file vs model, the record stored before must still be there. stream 'localid': the account's own identity with edge bytes (0x05 / 0x00 / 0xff leading, trailing) read back before and after a reopen.")
 ASSUMPTIONS = ["SQLite's atomic commit: a transaction that was not committed when the process died is rolled back on reopen; a committed one is durable "
                "(power loss / fsync lies below SQLite are not exhibited)", "python-axolotl record (de)serialisation is the identity on the stored blobs"]
 EXHAUSTIVE = {"quick": False, "thorough": False}
@@ -58,6 +59,20 @@ def cases(chk):
     for what in ("session-other-device", "session-delete-other-device", "senderkey-other-sender", "senderkey-other-group", "prekey-neighbour", "signed-neighbour", "identity-other-contact"):
         for reopen in (0, 1):
             yield "otherkey", {"what": what, "reopen": reopen}
+    # the account's own identity (created when the store is first opened) reads back as created, in the same process and after a reopen,
+    # whatever its bytes look like: leading / trailing bytes equal to the key-type byte 0x05, zero bytes, 0xff
+    shapes = ["05", "0505", "050505", "00", "0005", "ff", "05" * 32, "00" * 32, "random", "random", "end05", "end00"]
+    for i, sh in enumerate(shapes):
+        yield "localid", {"pub": sh, "priv": shapes[(i * 5 + 3) % len(shapes)], "regid": [1, 5, 0x05050505, 16380, 0x3fff, 0x7fffffff][i % 6], "seed": i}
+    for i in range(chk.scale(20, 600)):
+        yield "localid", {"pub": r.choice(shapes), "priv": r.choice(shapes), "regid": r.choice([1, 5, 1285, 16380, r.randrange(1, 1 << 31)]), "seed": r.randrange(1 << 30)}
+    # an operation whose k-th statement FAILS (a storage fault: disk full, I/O error, locked file) is refused as a whole: neither then nor after
+    # the next successful operation is the record that was stored under the key before gone or half replaced
+    for op in range(10):
+        for k in (1, 2, 3):
+            for then in (4, 0, 9):
+                if not chk.quick() or then == 4 or op in (0, 3):
+                    yield "stmtfault", {"op": op, "k": k, "then": then}
     # corpus: replace of an existing session / identity killed at every point
     for op in (0, 3, 9):
         for j in range(0, 8):
@@ -189,7 +204,7 @@ def run_journal(chk, case):
     import os
     import tempfile
     from yowsup.axolotl.store.sqlite.liteaxolotlstore import LiteAxolotlStore
-    d = tempfile.mkdtemp(prefix="c13j-")
+    d = tempfile.mkdtemp(prefix="c13j-", dir=boot.scratch_dir())
     store = LiteAxolotlStore(os.path.join(d, "axolotl.db"))
     if case["after"] == "use":
         for op in (9, 0, 4):
@@ -218,7 +233,7 @@ def run_otherkey(chk, case):
     from axolotl.axolotladdress import AxolotlAddress
     from yowsup.axolotl.store.sqlite.liteaxolotlstore import LiteAxolotlStore
     pool = chk.pool
-    path = os.path.join(tempfile.mkdtemp(prefix="c13o-"), "axolotl.db")
+    path = os.path.join(tempfile.mkdtemp(prefix="c13o-", dir=boot.scratch_dir()), "axolotl.db")
     store = LiteAxolotlStore(path)
     what = case["what"]
     chk.hit("otherkey:" + what)
@@ -285,9 +300,146 @@ def run_otherkey(chk, case):
     return []
 
 
+def _shaped(shape, rr):
+    body = bytearray(rr.randrange(256) for _ in range(32))
+    if shape.startswith("end"):
+        body[-1] = int(shape[3:], 16)
+    elif shape != "random":
+        pre = bytes.fromhex(shape)
+        body[:len(pre)] = pre
+    return bytes(body)
+
+
+def run_localid(chk, case):
+    import os
+    import random
+    import tempfile
+    from axolotl.ecc.djbec import DjbECPublicKey, DjbECPrivateKey
+    from axolotl.identitykey import IdentityKey
+    from axolotl.identitykeypair import IdentityKeyPair
+    import yowsup.axolotl.store.sqlite.liteidentitykeystore as LI
+    from yowsup.axolotl.store.sqlite.liteaxolotlstore import LiteAxolotlStore
+    rr = random.Random(case["seed"])
+    pub, priv, regid = _shaped(case["pub"], rr), _shaped(case["priv"], rr), case["regid"]
+    pair = IdentityKeyPair(IdentityKey(DjbECPublicKey(pub)), DjbECPrivateKey(priv))
+
+    class KH(object):
+        """the key helper of the identity store, producing the identity of this case (the store creates the identity itself on first open)"""
+        @staticmethod
+        def generateIdentityKeyPair():
+            return pair
+
+        @staticmethod
+        def generateRegistrationId(*a, **kw):
+            return regid
+
+        def __getattr__(self, n):
+            return getattr(real, n)
+    real = LI.KeyHelper
+    path = os.path.join(tempfile.mkdtemp(prefix="c13l-", dir=boot.scratch_dir()), "axolotl.db")
+    LI.KeyHelper = KH()
+    try:
+        store = LiteAxolotlStore(path)
+    finally:
+        LI.KeyHelper = real
+    chk.hit("localid:pub=%s" % case["pub"][:6], "localid:priv=%s" % case["priv"][:6])
+    want = (bytes(pair.getPublicKey().serialize()), bytes(pair.getPrivateKey().serialize()), regid)
+    out = []
+    for when in ("in the creating process", "after a reopen"):
+        try:
+            kp = store.getIdentityKeyPair()
+            got = (bytes(kp.getPublicKey().serialize()), bytes(kp.getPrivateKey().serialize()), store.getLocalRegistrationId())
+        except Exception as e:
+            got = ("raised " + type(e).__name__, None, None)
+        if got != want:
+            which = "public identity key" if got[0] != want[0] else "private identity key" if got[1] != want[1] else "registration id"
+            i = 0 if got[0] != want[0] else 1 if got[1] != want[1] else 2
+            out.append(oracle("C13:own-identity-altered", "own identity with public key %s.., private key %s.., registration id %d: %s the %s reads back as %s (stored: %s)"
+                              % (pub[:4].hex(), priv[:4].hex(), regid, when, which, got[i].hex() if isinstance(got[i], bytes) else got[i],
+                                 want[i].hex() if isinstance(want[i], bytes) else want[i])))
+            break
+        close_store(store)
+        store = LiteAxolotlStore(path)          # (a reopen must find the identity, not create another one)
+    close_store(store)
+    return out
+
+
+def run_stmtfault(chk, case):
+    import os
+    import sqlite3
+    import tempfile
+    from lib import sqlfault
+    op, k, then = case["op"], case["k"], case["then"]
+    table = TABLE_OF[op]
+    key = KEYS[table][0]
+    d = tempfile.mkdtemp(prefix="c13f-", dir=boot.scratch_dir())
+    path = os.path.join(d, "axolotl.db")
+    sqlfault.install()
+    try:
+        store = open_store(path)
+        dr = chk.driver
+        dr.ask("store reset")
+        # something is stored under the key, and under a neighbouring key of every table
+        pre = {0: 0, 1: 0, 2: 0, 3: 3, 4: 4, 5: 4, 6: 4, 7: 7, 8: 7, 9: 9}[op]
+        axo.apply_op(store, chk.pool, pre, key, 0, key)
+        dr.ask("store op %d %d 0 %d" % (pre, key, key))
+        for o2 in (0, 3, 4, 7, 9):
+            axo.apply_op(store, chk.pool, o2, KEYS[TABLE_OF[o2]][1], 2, 0)
+            dr.ask("store op %d %d 2 0" % (o2, KEYS[TABLE_OF[o2]][1]))
+        before, _l = axo.dump(path, chk.pool)
+        sqlfault.arm(d, k, writes_only=True)
+        refused = None
+        try:
+            axo.apply_op(store, chk.pool, op, key, 1, key)
+        except Exception as e:
+            refused = "%s: %s" % (type(e).__name__, e)
+        fired = sqlfault.fired()
+        sqlfault.disarm()
+        chk.hit("stmtfault:%s" % ("fired" if fired else "not-reached"), "stmtfault:op=%d" % op)
+        mres = dr.ask("store faultrun %d %d %d 1 %d" % (op, k, key, key))
+        if not fired:
+            if mres != "not-reached":
+                return [corr("stmtfault", "%s: the operation has no write statement #%d, the model's skeleton has (%s)" % (axo.OPS[op][0], k, mres))]
+            return []
+        in_tx = store.identityKeyStore.dbConn.in_transaction
+        if mres != ("pending" if in_tx else "rolled-back"):
+            return [corr("stmtfault", "%s with write statement #%d failing: the connection is %s a transaction afterwards, the model says %s"
+                         % (axo.OPS[op][0], k, "still inside" if in_tx else "not inside", mres))]
+        # the next successful operation (on another key)
+        axo.apply_op(store, chk.pool, then, KEYS[TABLE_OF[then]][2], 3, 0)
+        dr.ask("store op %d %d 3 0" % (then, KEYS[TABLE_OF[then]][2]))
+        close_store(store)
+        after, _l = axo.dump(path, chk.pool)
+        dr.ask("store reopen")
+        model = dr.ask("store dump")
+        if axo.show_dump(after) != model:
+            return [corr("stmtfault", "%s on key %d with write statement #%d failing, then %s, close: file=%s model=%s"
+                         % (axo.OPS[op][0], key, k, axo.OPS[then][0], axo.show_dump(after), model))]
+    finally:
+        sqlfault.uninstall()
+    ti = table
+    was = [r for r in before[ti] if r[0] == key]
+    now = [r for r in after[ti] if r[0] == key]
+    others_before = [[r for r in t if not (i == ti and r[0] == key) and not (i == TABLE_OF[then] and r[0] == KEYS[TABLE_OF[then]][2])] for i, t in enumerate(before)]
+    others_after = [[r for r in t if not (i == ti and r[0] == key) and not (i == TABLE_OF[then] and r[0] == KEYS[TABLE_OF[then]][2])] for i, t in enumerate(after)]
+    name = axo.OPS[op][0]
+    # (per record: its previous value or the operation's new one — for an operation that stores or updates, never no record at all)
+    if refused and was and not now and axo.OPS[op][1] in ("replace", "insertNew", "markSent"):
+        return [oracle("C13:failed-replacement-loses-record", "%s on key %d with statement #%d failing (%s): the operation was refused (%s), then %s on another key succeeded: the record "
+                       "stored under the key before is %s" % (name, key, k, fired, refused, axo.OPS[then][0], "gone" if not now else "changed to %r" % (now,)))]
+    if others_before != others_after:
+        return [oracle("C13:failed-operation-damages-other-records", "%s on key %d with statement #%d failing (%s), then %s: records under other keys changed"
+                       % (name, key, k, fired, axo.OPS[then][0]))]
+    return []
+
+
 def run_case(chk, stream, case):
     if stream == "otherkey":
         return run_otherkey(chk, case)
+    if stream == "stmtfault":
+        return run_stmtfault(chk, case)
+    if stream == "localid":
+        return run_localid(chk, case)
     if stream == "journal":
         return run_journal(chk, case)
     case = dict(case)
@@ -456,7 +608,7 @@ def _child(path, pool, op, j, mode="kill"):
 
 
 def shrink(stream, case):
-    if stream in ("journal", "otherkey"):
+    if stream in ("journal", "otherkey", "localid", "stmtfault"):
         return
     if stream == "crash":
         pre = case["pre"]
